@@ -565,8 +565,39 @@ def returns_with_atoms(fn, watch, limit=20000):
                     tgt = strip(n["e"])
                 if tgt is not None and tgt.get("k") in ("var", "mem"):
                     key = pp(tgt)
-                    cur = set(a for a in cur if key not in a[0])
+                    cur = set(a for a in cur if key not in a[0] or a[0].startswith("__const__ "))
+                # single-exit style (`rc = PS_FAILURE; goto out; ... return rc;`): remember the constant a local holds
+                if n.get("k") == "bin" and n["op"] == "=" and (strip(n["l"]) or {}).get("k") == "var" and strip(n["l"]).get("sc") == "l":
+                    nm_ = strip(n["l"])["n"]
+                    cur = set(a for a in cur if a[0] != "__const__ " + nm_)
+                    r_ = strip(n["r"])
+                    while r_ is not None and r_.get("k") == "cast":
+                        r_ = strip(r_["e"])
+                    if r_ is not None and r_.get("k") == "int":
+                        cur.add(("__const__ " + nm_, r_["v"]))
+                    elif r_ is not None and r_.get("k") == "un" and r_["op"] == "-" and (strip(r_["e"]) or {}).get("k") == "int":
+                        cur.add(("__const__ " + nm_, -strip(r_["e"])["v"]))
+                elif n.get("k") == "decl" and "init" in n and (n.get("var") or {}).get("n"):
+                    r_ = strip(n["init"])
+                    if r_ is not None and r_.get("k") == "int":
+                        cur.add(("__const__ " + n["var"]["n"], r_["v"]))
+                elif tgt is not None and tgt.get("k") == "var":
+                    cur = set(a for a in cur if a[0] != "__const__ " + tgt.get("n", ""))
+                elif n.get("k") == "call":
+                    for a_ in n.get("a", []):
+                        a0 = strip(a_)
+                        if a0 is not None and a0.get("k") == "un" and a0["op"] == "&" and (strip(a0["e"]) or {}).get("k") == "var":
+                            cur = set(a for a in cur if a[0] != "__const__ " + strip(a0["e"]).get("n", ""))
             if x.get("k") == "ret":
+                e_ = strip(x.get("e")) if x.get("e") is not None else None
+                while e_ is not None and e_.get("k") == "cast":
+                    e_ = strip(e_["e"])
+                if e_ is not None and e_.get("k") == "var":
+                    kv = [a[1] for a in cur if a[0] == "__const__ " + e_["n"]]
+                    if kv and kv[0] < 0:
+                        done = True
+                        break               # `return rc` with rc known negative on this path: an error return
+                cur = set(a for a in cur if not a[0].startswith("__const__ "))
                 out.add((ln, id(x), frozenset(cur)))
                 rets[id(x)] = x
                 done = True
